@@ -1082,6 +1082,16 @@ static void cmd_registry(char* args) {
     edn_reader_registry_destroy(r);
 }
 
+static uint64_t x_hash1(const void* a) {
+    (void) a;
+    return 11;
+}
+static uint64_t x_hash2(const void* a) {
+    (void) a;
+    return 22;
+}
+
+/* ops: +id=E or +id=EH (E = equality callback 1|2, H = hash callback 0 (NULL) | 1 | 2), -id, ?id */
 static void cmd_external(char* args) {
     uint32_t seen[64];
     int nseen = 0;
@@ -1100,7 +1110,8 @@ static void cmd_external(char* args) {
         if (!known && nseen < 64)
             seen[nseen++] = id;
         if (op == '+') {
-            bool ok = edn_external_register_type(id, h == 1 ? x_eq1 : x_eq2, NULL);
+            int e = h >= 10 ? h / 10 : h, hh = h >= 10 ? h % 10 : 0;
+            bool ok = edn_external_register_type(id, e == 1 ? x_eq1 : x_eq2, hh == 1 ? x_hash1 : (hh == 2 ? x_hash2 : NULL));
             printf("%d", ok ? 1 : 0);
         } else if (op == '-') {
             edn_external_unregister_type(id);
@@ -1111,7 +1122,9 @@ static void cmd_external(char* args) {
         printf("{");
         for (int i = 0; i < nseen; i++) {
             edn_external_equal_fn fn = edn_external_lookup_equal(seen[i]);
-            printf("%s%u=%d", i ? "," : "", (unsigned) seen[i], fn == x_eq1 ? 1 : (fn == x_eq2 ? 2 : 0));
+            edn_external_hash_fn hf = edn_external_lookup_hash(seen[i]);
+            int ec = fn == x_eq1 ? 1 : (fn == x_eq2 ? 2 : 0), hc = hf == x_hash1 ? 1 : (hf == x_hash2 ? 2 : 0);
+            printf("%s%u=%d", i ? "," : "", (unsigned) seen[i], hc ? ec * 10 + hc : ec);
         }
         printf("} ");
         tok = strtok(NULL, " \n");
@@ -1206,8 +1219,13 @@ static void free_regs(void) {
  *   d:<p>          edn_has_duplicates over the children of p (unity or lib)
  *   t:<p>          dump without ranges
  */
+static const edn_value_t* sg_vals[64];
+static const char* sg_ptrs[64];
+static int sg_n = 0;
+
 static void cmd_script(char* args) {
     int save_ranges = dump_ranges;
+    sg_n = 0;
     char* save = NULL;
     char* tok = strtok_r(args, " \n", &save);
     int first = 1;
@@ -1276,6 +1294,19 @@ static void cmd_script(char* args) {
                 else {
                     printf("%zu:", len);
                     put_hex(stdout, s, len);
+                    /* C06: NUL after the end, and the same pointer every time for the same value */
+                    if (s[len] != 0)
+                        printf("!NOTERM");
+                    int seen_at = -1;
+                    for (int q = 0; q < sg_n; q++)
+                        if (sg_vals[q] == p)
+                            seen_at = q;
+                    if (seen_at >= 0 && sg_ptrs[seen_at] != s)
+                        printf("!UNSTABLE");
+                    if (seen_at < 0 && sg_n < 64) {
+                        sg_vals[sg_n] = p;
+                        sg_ptrs[sg_n++] = s;
+                    }
                 }
             } else if (strcmp(op, "se") == 0) {
                 size_t n;
